@@ -17,14 +17,17 @@ type Shape struct {
 // Canon maps a model shape to one AWK can express and the harness can run
 // deterministically:
 //   - a for-in cannot stand directly in a pattern: a function is put between;
-//   - programs that wait for a child are built around BEGIN or END, because a
-//     child inherits Config.Stdin and would compete with the record loop for it.
-func (s Shape) Canon() Shape {
+//   - programs that wait for a child and read records are built around BEGIN
+//     or END, because a child inherits Config.Stdin and would compete with the
+//     record loop for it.
+func (s Shape) Canon(finite bool) Shape {
 	k := append([]string{}, s.Kinds...)
 	if len(k) == 0 {
 		k = []string{"begin"}
 	}
-	if s.Waiting != "none" && (k[0] == "action" || k[0] == "pattern") {
+	// In the cancel family an action that waits loops for ever on its first record, so what the child
+	// takes from stdin does not matter; a pattern cannot hold a loop.
+	if s.Waiting != "none" && (k[0] == "pattern" || (finite && k[0] == "action")) {
 		k[0] = "begin"
 	}
 	if k[0] == "pattern" && len(k) > 1 && k[1] == "forin" {
@@ -158,7 +161,11 @@ func (s Shape) Source(finite bool) string {
 	case "end":
 		sb.WriteString("}\nEND { " + loopOpen + body + loopClose + " }\n")
 	case "action":
-		sb.WriteString("}\n{ " + body + " }\n")
+		if s.Waiting != "none" && !finite {
+			sb.WriteString("}\n{ " + loopOpen + body + loopClose + " }\n")
+		} else {
+			sb.WriteString("}\n{ " + body + " }\n")
+		}
 	case "pattern":
 		if len(s.Kinds) == 1 {
 			// a pattern-only rule: the work must be an expression; lines are printed in BEGIN
@@ -187,6 +194,17 @@ func minInt(a, b int) int {
 
 // UsesRecords says whether the program reads the long record input.
 func (s Shape) UsesRecords() bool { return s.Kinds[0] == "action" || s.Kinds[0] == "pattern" }
+
+// Input is the standard input of the cancel-family program of this shape.
+func (s Shape) Input() string {
+	switch {
+	case !s.UsesRecords():
+		return ""
+	case s.Waiting != "none":
+		return "r\n" // the action loops for ever on this record
+	}
+	return Records
+}
 
 // Ordinary is a family of everyday programs for the never-cancelled direction.
 var Ordinary = []struct{ Src, In string }{
